@@ -157,7 +157,7 @@ REGISTRY = {
     "C10": {"parts": [{"module": "props.readers", "units": ["limiter", "fixed", "overlap_iter", "overlap_misc", "audioreader", "proxy"]},
                       # the wrapped source really obeys the interface contract the wrappers are verified against
                       {"module": "props.sources", "units": ["buffer_read", "file_read", "file_open"], "include_all": True}],
-            "witness": "api", "assumptions": RD_ASSUME},
+            "witness": "api", "witness_also": [("api", "C11")], "assumptions": RD_ASSUME},
     "C19": {"parts": [{"module": "props.readers", "units": ["overlap_iter", "overlap_misc", "recorder", "replay_lemma", "audioreader", "proxy"]},
                       # rewind goes through the limiter: its whole contract (read / rewind / data) is part of the check
                       {"module": "props.readers", "units": ["limiter"], "include_all": True}],
